@@ -136,12 +136,16 @@ class C09Engine(GenEngineBase):
             for dbg in DEBUG_LEVELS.get(r["target"], [0]):
                 k = req_key(r, dbg)
                 if only is None or k in only:
-                    reqs.append((k, r, dbg))
+                    reqs.append((k, r, dbg, False))
+                if r["func"].startswith("stress_") and (only is None or k + ":raw" in only):
+                    reqs.append((k + ":raw", r, dbg, True))
 
         def one(item):
-            k, r, dbg = item
+            k, r, dbg, raw = item
             case = {"seed": 0, "history": [["ctx", "c0", r["target"]], ["trace", "r0", "c0", r["target"], r["func"], r["sig"]],
                                            ["expand", "r0"], ["simplify", "r0"], ["print", "r0", dbg, "cmp"]]}
+            if raw:
+                case["history"][2:] = [["print", "r0", dbg, "cmp", "raw"]]
             res = run_child(case, 0)
             outs = res["outputs"]
             return k, (outs[0]["text"] if outs else None)
@@ -187,7 +191,7 @@ class C09Engine(GenEngineBase):
             if ref is None:
                 stats["reference_unavailable"] = stats.get("reference_unavailable", 0) + 1
                 continue
-            same_func_only = all(p.split(":debug")[0] == k.split(":debug")[0] for p in o["prior"])
+            same_func_only = all(p == k.split(":debug")[0] for p in o["prior"])
             if not same_func_only:
                 continue
             compared += 1
